@@ -9,11 +9,11 @@
    Operations (fields ','-separated, strings in hex, node references = traversal index, -1 = NULL):
      E,p,name            wbxml_tree_add_xml_elt
      A,p,name,k,v,...    wbxml_tree_add_xml_elt_with_attrs
-     Y,p,name,text       wbxml_tree_add_xml_elt_with_attrs_and_text (no attributes)
+     Y,p,name,text       wbxml_tree_add_xml_elt_with_attrs_and_text (no attributes; text "-" = "" with len 0, "~" = NULL)
      G,p,tagidx          wbxml_tree_add_elt            (token tag = lang->tagTable[tagidx])
      L,p,name            wbxml_tree_add_elt            (literal tag)
      H,p,tagidx,ai,v,... wbxml_tree_add_elt_with_attrs (attribute names = lang->attrTable[ai], ai<0: literal "k")
-     T,p,text            wbxml_tree_add_text
+     T,p,text            wbxml_tree_add_text   (text "-": length 0)
      C,p                 wbxml_tree_add_cdata
      R,p,langid,root,text wbxml_tree_add_tree (nested tree <root>text</root> of language langid)
      B,i,k,v             wbxml_tree_node_add_xml_attr
@@ -197,7 +197,8 @@ static void run_seq(int langid, int xmlgen_arg, char *opsline) {
             for (k = 0; k < na; k++) free((void *) at[k]);
             free(nm);
         } else if (op == 'Y' && nf >= 4) {
-            unsigned char *nm = hexstr(f[2]); size_t tl; unsigned char *tx = vh_unhex(f[3], &tl);
+            unsigned char *nm = hexstr(f[2]); size_t tl = 0; unsigned char *tx = NULL;
+            if (strcmp(f[3], "~") != 0) tx = vh_unhex(f[3], &tl);      /* "~": text == NULL; "-": text = "", len 0 */
             res = wbxml_tree_add_xml_elt_with_attrs_and_text(tree, ref(f[1]), nm, NULL, tx, (WB_ULONG) tl); ok = res != NULL;
             free(nm); free(tx);
         } else if ((op == 'G' || op == 'H') && nf >= 3) {
